@@ -6,7 +6,7 @@ from .. import mc, tlc, eqbind
 from ..tlaval import to_json
 
 ALL_BEHS = ['equal', 'different', 'bare', 'playerRaises', 'extractorRaises', 'comparatorRaises', 'exits', 'hangs', 'late']
-PROC_BEHS = {'exits', 'hangs', 'late'}
+PROC_BEHS = {'exits', 'hangs', 'late', 'unreadable'}
 INVS = ['Attribution', 'OneEach', 'RecycleBound', 'OneWorker']
 
 
@@ -41,10 +41,13 @@ def _run(task):
     sc, keep, abandon = task
     late_wins = dict((k, True) for k in sc['late'])
     res = eqbind.run_dedicated(sc['beh'], sc['rate'], sc['stop'], late_wins, keep, abandon=abandon)
-    res.pop('log', None)
+    log = res.pop('log', None) or []
+    res['implog'] = eqbind.impl_events(log, res['out']) if not res['violations'] else None
     inproc = None
     if not (set(sc['beh']) & PROC_BEHS) and sc['stop'] >= len(sc['beh']):
         inproc = eqbind.run_inprocess(sc['beh'], keep)
+        # ... and with the real TapeRecorder.play as the player (recordings made by the real recorder)
+        res['inproc_real'] = eqbind.run_inprocess_real(sc['beh'], keep)
     return sc, keep, abandon, res, inproc
 
 
@@ -70,6 +73,17 @@ def judge_c08(sc, keep, res, inproc):
         dv = [o['verdict'] for o in got]
         if iv != dv:
             bad.append('in-process verdicts %s differ from dedicated-process verdicts %s' % (iv, dv))
+        for e, g in zip(exp, inproc):
+            if (g['id'], g['verdict'], g['attached']) != (e['id'], e['verdict'], e['attached']):
+                bad.append('in-process: recording %d (%s) gave %s, expected %s' % (e['id'], sc['beh'][e['id'] - 1], g, e))
+    real = res.get('inproc_real')
+    if real is not None:
+        if len(real) != len(exp):
+            bad.append('in-process over the real recorder: %d comparisons for %d ids' % (len(real), len(exp)))
+        for e, g in zip(exp, real):
+            if (g['id'], g['verdict'], g['attached']) != (e['id'], e['verdict'], e['attached']) or not g['pure']:
+                bad.append('in-process over the real recorder: recording %d (%s) gave %s, expected %s with a replay holding '
+                           'only its own outputs' % (e['id'], sc['beh'][e['id'] - 1], g, e))
     return bad
 
 
@@ -77,7 +91,7 @@ def consts(n, behs, rate, stops, fresh=True):
     return dict(N=n, Behs=set(behs), Rate=rate, Stops=set(stops), FreshQueues=fresh)
 
 
-def run(rep, tier, seed, judge=judge_c08, prop_filter=None):
+def run(rep, tier, seed, judge=judge_c08, prop_filter=None, extra=None):
     rep.rule = ('scenarios = terminal states of the TLC state graph of spec/Equalizer.tla: a sequence of recordings, each with '
                 'a behaviour (equal, different, bare status, player / extractor / comparator raises, worker exits, worker '
                 'hangs past the time-out, worker answers just after the parent gave up - and whether that late answer '
@@ -110,7 +124,10 @@ def run(rep, tier, seed, judge=judge_c08, prop_filter=None):
             sc += scenarios(rep, s, 'n4all', consts(4, ALL_BEHS, 2, [4, 2]), 20000, rnd)
             sc += scenarios(rep, s, 'n4r1', consts(4, ['equal', 'comparatorRaises', 'exits', 'hangs', 'late'], 1, [4, 1]), 3000, rnd)
             sc += scenarios(rep, s, 'n4r3', consts(4, ['equal', 'extractorRaises', 'exits', 'hangs', 'late'], 3, [4, 3]), 3000, rnd)
+        for name, c, cap in (extra(tier) if extra else []):
+            sc += scenarios(rep, s, name, c, cap, rnd)
     tasks = []
+    impl = {}
     for k, x in enumerate(sc):
         tasks.append((x, bool(k % 2), 'close' if (k // 2) % 2 == 0 else 'drop'))
     ctx = mp.get_context('fork')
@@ -122,6 +139,9 @@ def run(rep, tier, seed, judge=judge_c08, prop_filter=None):
                                bool(set(x['beh']) - {'equal', 'different', 'bare'}))
             if len(rep.samples) < 3 and x['late']:
                 rep.sample({'scenario': x, 'observed': res['out']})
+            if res.get('implog'):
+                impl.setdefault((len(x['beh']), x['rate']), []).append(
+                    {'beh': list(x['beh']), 'stop': x['stop'], 'events': res['implog']})
             bad = judge(x, keep, res, inproc)
             if bad:
                 rep.violation({'summary': '%s | scenario beh=%s rate=%d stop=%d late=%s keep_results=%s'
@@ -129,11 +149,42 @@ def run(rep, tier, seed, judge=judge_c08, prop_filter=None):
                                'signature': None, 'all': bad[:5]},
                               replay={'kind': 'equalizer', 'scenario': x, 'keep': keep, 'abandon': abandon})
     rep.exhaustive = False
+    impl_level(rep, impl)
     # direction B: the repository's equalizer tests with *real* worker processes under the guarded parent-side hooks
     from .. import suitetrace
     events, tail = suitetrace.run_tests(['tests/studio/test_equalizer.py'])
     rep.extra['suite_run'] = tail
     suitetrace.validate(rep, 'tests/studio/test_equalizer.py (real processes)', 'EqualizerTrace', suitetrace.equalizer_traces(events))
+
+
+def impl_level(rep, impl):
+    """Implementation level: the scheduler's log of every run (multiprocessing boundary calls of the parent and the
+    workers) must be a behaviour of Equalizer.tla itself (EqualizerImplTrace reuses its actions).  A rejection is model
+    drift - reported in the evidence, not an alarm: a refactoring of the parent loop that keeps the property must not
+    fail the check."""
+    from .. import tracecheck
+    st = rep.extra.setdefault('implementation_level_traces', {'validated': 0, 'accepted': 0, 'rejected_as_drift': 0})
+    with tlc.Scratch() as s:
+        for (n, rate), traces in sorted(impl.items()):
+            traces = traces[:600]
+            for i, t in enumerate(traces):
+                t['id'] = i + 1
+            name = 'MC_%s_impl_%d_%d' % (rep.prop, n, rate)
+            mc.write_mc(s, 'EqualizerImplTrace', name,
+                        consts(n, ALL_BEHS + ['unreadable'], rate, list(range(1, n + 1))), invariants=['TraceInv'],
+                        spec='TraceSpec', constraints=['Report'])
+            r, acc, rej = tracecheck.validate(s, name, name + '.cfg', traces)
+            rep.add_tlc('EqualizerImplTrace (N=%d, rate=%d): %d scheduler logs against the actions of Equalizer.tla'
+                        % (n, rate, len(traces)), r)
+            rep.accepted += len(acc)
+            st['validated'] += len(traces)
+            st['accepted'] += len(acc)
+            st['rejected_as_drift'] += len(rej)
+            if rej and 'rejected_sample' not in st:
+                k = tracecheck.longest_prefix(s, name, name + '.cfg', rej[0])
+                st['rejected_sample'] = {'beh': rej[0]['beh'], 'stop': rej[0]['stop'], 'rate': rate, 'matched_prefix': k,
+                                         'next_event': rej[0]['events'][k] if k < len(rej[0]['events']) else None,
+                                         'events': rej[0]['events']}
 
 
 def replay(rep, body, judge=judge_c08):
